@@ -257,6 +257,6 @@ def run(ctx: Ctx, rep: Report, tier: str):
     from rules.C07 import C07 as _C07b
     _alias(rep, ["C07.R4"], "C01.R21", "two different files of one name never end up booked as equal: an existing peer file is adopted silently only when its hash equals the hash "
            "of the bytes being created, computed by the same provider (C07.R4)", 3, lambda: _C07b(ctx, rep).r4())
-    from rules.decisions import decision_table
-    rep.rule("C01.R22", "decision table of the sync step, the creation path and completion: every action site (return value, handler / state / provider call, priority / ignored / exists / changed / sync_path / sync_hash store, slot graft, continue, raise) is reached under exactly the path condition the audited table rules/decisions.json records for it - the engine takes each action in the same set of entry states", 106)
-    section(rep, lambda: decision_table(ctx, rep, "C01.R22", ['SyncManager.sync', 'SyncManager.pre_sync', 'SyncManager.embrace_change', 'SyncManager.handle_path_change_or_creation', 'SyncManager.create_synced', 'SyncManager.mkdir_synced', 'SyncManager.unsafe_mkdir_synced', 'SyncManager.finished', 'SyncState.finished', 'SyncState.unconditionally_get_no_info']))
+    from rules.decisions import decision_table, table_sites
+    rep.rule("C01.R22", "decision table of the sync step, the creation path, completion and the change count: every action site (return value, handler / state / provider call with the parameters it passes, priority / ignored / exists / changed / sync_path / sync_hash store, slot graft, continue, raise) is reached under exactly the path condition the audited table rules/decisions.json records for it - the engine takes each action in the same set of entry states, on the same side", table_sites("C01"))
+    section(rep, lambda: decision_table(ctx, rep, "C01.R22", "C01"))
